@@ -707,7 +707,7 @@ Lemma post_nonvacuous :
     resolve_imports (fuel_bound ex_fs empty_state) true ex_fs empty_state ex_m0 = Ok (true, st').
 Proof.
   destruct nonvacuous as (_ & Hsh & _ & Hnt & _ & _).
-  exists {| fx_pop := true; fx_nullref := false |}, (fun _ => 0), (fun _ => 0), ex_st.
+  exists {| fx_pop := true; fx_nullref := false; fx_placeholder_children := false |}, (fun _ => 0), (fun _ => 0), ex_st.
   split; [reflexivity|]. split; [exact Hsh|].
   split; [intros k sm url E Hin; rewrite (ex_fs_model _ _ E) in Hin; destruct Hin|].
   split; [exact Hnt|].
